@@ -18,7 +18,7 @@ import (
 func init() {
 	Registry["C19"] = &Check{
 		Scenarios: c19Scenarios,
-		Rule: "S in {1,2} streams (stream numbers rotating over {0,1,5}, {16,0,65535}, {21,15,0}, {1,17,16} from one history to the next): per stream every sequence of <=2 messages over sizes {20 (header only), 40, 1100 bytes} from a list of eight; each stream's bytes cut into <=3 chunks at every choice of <=2 cut points from {inside the first header, header/body border, inside the body, message border, inside the second header, spanning point}; ALL merges (interleavings) of the per-stream chunk sequences; then EOF. S = 3: single messages of 20, 40 and 48 bytes per stream with <=1 cut, all merges (thorough: also the general family with <=1 cut). The chunks are fed through the in-memory SCTP backend (partial delivery: a read returns at most the buffer size of the head chunk) to a real diam.Conn created with diam.NewConn over diam.NewSCTPConnBackend, i.e. consumed by the library's own reader loop; the handler records (message, MessageStream()) and answers. One deterministic schedule per history (the quantifier is over chunk histories). Last clause: additionally the deferred-answer grid of C16 (all 16 stream pairs x 0-2 temporarily failing write attempts) and two application goroutines answering requests of streams {3,5} / {0,7} concurrently, every schedule up to preemption bound 2.",
+		Rule: "S in {1,2} streams (stream numbers rotating over {0,1,5}, {16,0,65535}, {21,15,0}, {1,17,16} from one history to the next): per stream every sequence of <=2 messages over sizes {20 (header only), 40, 1100 bytes} from a list of eight; each stream's bytes cut into <=3 chunks at every choice of <=2 cut points from {inside the first header, header/body border, inside the body, message border, inside the second header, spanning point}; ALL merges (interleavings) of the per-stream chunk sequences; then EOF. S = 5: the first stream's message (40 or 1100 bytes) in two chunks around whole messages of four other streams with sizes from {40,48,56,80} (all 256 assignments x 24 arrival orders). S = 3: single messages of 20, 40 and 48 bytes per stream with <=1 cut, all merges (thorough: also the general family with <=1 cut). The chunks are fed through the in-memory SCTP backend (partial delivery: a read returns at most the buffer size of the head chunk) to a real diam.Conn created with diam.NewConn over diam.NewSCTPConnBackend, i.e. consumed by the library's own reader loop; the handler records (message, MessageStream()) and answers. One deterministic schedule per history (the quantifier is over chunk histories). Last clause: additionally the deferred-answer grid of C16 (all 16 stream pairs x 0-2 temporarily failing write attempts) and two application goroutines answering requests of streams {3,5} / {0,7} concurrently, every schedule up to preemption bound 2.",
 		Assume: []string{"the in-memory backend models one-to-one-socket recvmsg partial delivery (hook diam/sctp_verif.go, build tag verif)", "single default schedule per history"},
 		QuickBudget: 150, ThoroughBudget: 2400,
 	}
@@ -233,7 +233,7 @@ func c19Scenarios(tier string) []*Scenario {
 			}
 		}})
 	}
-	// S = 3: single messages of 20, 40 and 48 bytes per stream (two buffered streams whose lengths
+	// S = 5: the first stream's message (40 or 1100 bytes) in two chunks around whole messages of four other streams with sizes from {40,48,56,80} (all 256 assignments x 24 arrival orders). S = 3: single messages of 20, 40 and 48 bytes per stream (two buffered streams whose lengths
 	// differ by less than a header are needed to reorder the demultiplexer's heap), <=1 cut, all merges
 	small := make([][]streamCfg, 3)
 	for si := range small {
@@ -278,6 +278,11 @@ func c19Scenarios(tier string) []*Scenario {
 			}})
 		}
 	}
+	// S = 5: four parked streams while a fifth message is being assembled
+	for _, fs := range []int{40, 1100} {
+		fs := fs
+		out = append(out, &Scenario{Name: fmt.Sprintf("streams=5/first-size=%d", fs), Seq: func(r *SeqResult) { c19Five(r, fs) }})
+	}
 	// replies written later, while another stream's request is being handled, with and without
 	// temporary write errors that are retried (shared with C16)
 	out = append(out, &Scenario{Name: "streams/deferred-answer", Seq: c16Deferred})
@@ -317,4 +322,56 @@ func c19Eval(r *SeqResult, cfgs []streamCfg) {
 			r.Case = map[string]interface{}{"streams": d, "order": append([]int{}, order...)}
 		}
 	})
+}
+
+// c19Five: five streams. The message of the first stream arrives in two chunks; between them whole
+// messages of the four other streams arrive (sizes from {40, 48, 56, 80}, every assignment, every
+// arrival order), so that four stream buffers are held at once while the first message is being
+// assembled.
+func c19Five(r *SeqResult, firstSize int) {
+	saved := c19Streams
+	defer func() { c19Streams = saved }()
+	c19Streams = []uint16{3, 0, 17, 1, 65535}
+	sizes := []int{40, 48, 56, 80}
+	first := c19Msg(0, 0, firstSize)
+	var perms [][]int
+	var rec func(cur []int, used int)
+	rec = func(cur []int, used int) {
+		if len(cur) == 4 {
+			perms = append(perms, append([]int{}, cur...))
+			return
+		}
+		for i := 1; i <= 4; i++ {
+			if used&(1<<uint(i)) == 0 {
+				rec(append(cur, i), used|1<<uint(i))
+			}
+		}
+	}
+	rec(nil, 0)
+	for assign := 0; assign < 256; assign++ {
+		cfgs := []streamCfg{{sizes: []int{firstSize}, chunks: [][]byte{first[:10], first[10:]}, desc: fmt.Sprintf("sizes[%d] cuts[10]", firstSize)}}
+		for si := 1; si <= 4; si++ {
+			sz := sizes[(assign>>(2*uint(si-1)))&3]
+			cfgs = append(cfgs, streamCfg{sizes: []int{sz}, chunks: [][]byte{c19Msg(si, 0, sz)}, desc: fmt.Sprintf("sizes[%d] cuts[]", sz)})
+		}
+		for _, p := range perms {
+			order := append(append([]int{0}, p...), 0)
+			r.Cases++
+			r.Distinct++
+			if r.Violation != "" {
+				continue
+			}
+			if v := c19Run(cfgs, order); v != "" {
+				var d []string
+				for i, c := range cfgs {
+					d = append(d, fmt.Sprintf("stream %d: %s", c19Streams[i], c.desc))
+				}
+				r.Violation = fmt.Sprintf("%s | %s; chunk arrival order (stream index) %v", v, strings.Join(d, "; "), order)
+				r.Case = map[string]interface{}{"streams": d, "order": order}
+			}
+		}
+	}
+	if r.Sample == "" {
+		r.Sample = "five streams: the first stream's message in two chunks around whole messages of four other streams (256 size assignments x 24 orders)"
+	}
 }
